@@ -5,15 +5,19 @@ Pipeline (DESIGN 6/C15, design.d/C15.md):
      machine (<= 3 requests, the next one only while the previous response kept
      the connection open) whose responses follow the *intended* framing
      algorithm (DefectChoices = {{}}) obeys the C15 monitor of HttpResponseOps
-     for the full product of configurations; each named defect of the pinned
-     code violates it (ASSUME Teeth; MC_HttpResponse_pinned.cfg must fail).
-  2. TLC dumps the environment histories (every single configuration of the
-     full product; every sequence over a reduced product) with the lines the
-     intended and the pinned algorithm predict; each history is replayed on the
-     real circuits.web pipeline (HTTP + Dispatcher + a Controller returning the
-     body kind) over the socket double of harness/httpdouble.py.  The bytes
-     written are decoded by http.client.HTTPResponse (independent
-     implementation) and logged as one outcome line per exchange.
+     for the whole product of configurations (protocol, method, Connection
+     wish and its spelling, status, body kind, stream flag, what the transport
+     accepts per send()); each named defect variant must be flagged by the
+     monitor (ASSUME Teeth prints the clauses TLC found per defect).
+  2. TLC dumps the environment histories (every single configuration; every
+     sequence over a reduced product) with the lines the intended algorithm
+     and the algorithm of the tree as it is (TREE_DEFECTS) predict; each
+     history is replayed on the real circuits.web pipeline (HTTP + Dispatcher
+     + a Controller returning the body kind) over the repository's TCPServer
+     write path and the socket double of harness/httpdouble.py (scripted
+     partial accepts).  The bytes the peer received are decoded by
+     http.client.HTTPResponse (independent implementation) and logged as one
+     outcome line per exchange.
   3. TLC judges every recorded trace with spec/web/HttpResponseTrace.tla
      (same monitor).  Each real line is compared with the predicted lines
      (conformance drift when it equals neither variant's).
